@@ -1,0 +1,25 @@
+//go:build verif
+
+package shell_operator
+
+// Add-only export for the verification harness (property C07). Not part of the
+// normal build: reaches the unexported combineBindingContextForHook and its
+// exported twin on a bare ShellOperator that has nothing but a queue set and a
+// silent logger.
+
+import (
+	"github.com/deckhouse/deckhouse/pkg/log"
+
+	"github.com/flant/shell-operator/pkg/task"
+	"github.com/flant/shell-operator/pkg/task/queue"
+)
+
+// VerifC07Combine calls combineBindingContextForHook (exported == false) or
+// CombineBindingContextForHook (exported == true) with exactly the arguments given.
+func VerifC07Combine(tqs *queue.TaskQueueSet, q *queue.TaskQueue, t task.Task, stopCombineFn func(tsk task.Task) bool, exported bool) *CombineResult {
+	op := &ShellOperator{TaskQueues: tqs, logger: log.NewNop()}
+	if exported {
+		return op.CombineBindingContextForHook(q, t, stopCombineFn)
+	}
+	return op.combineBindingContextForHook(tqs, q, t, stopCombineFn)
+}
